@@ -58,8 +58,20 @@ def run(tier, seed):
     rc = v.finish()
     rows = allrows
     by = {}
+    effect = {}
     for x in rows:
         by[x["rpc"]] = by.get(x["rpc"], 0) + 1
+        e = effect.setdefault(x["rpc"], {"verify": 0, "verify_and_change_state": 0})
+        e["verify"] += 1 if x["verifies"] else 0
+        e["verify_and_change_state"] += 1 if (x["verifies"] and x["changed"]) else 0
+        if x["rpc"] == "contribution":
+            e["merged_into_the_aggregate"] = e.get("merged_into_the_aggregate", 0) + (1 if x.get("kauriAgg", 0) > 1 else 0)
+    # non-vacuity: every handler must have been reached by messages it acts on (a driver that never gets the replica into the
+    # state in which a message matters exercises nothing; that happened to the Kauri part once)
+    for rpc, need in (("newview", "verify_and_change_state"), ("timeout", "verify_and_change_state"), ("propose", "verify_and_change_state"),
+                      ("contribution", "merged_into_the_aggregate")):
+        if rpc in effect and not effect[rpc].get(need):
+            raise vlib.InfraError("C10 is vacuous for %s messages: none of %d had an effect (%s = 0)" % (rpc, by.get(rpc, 0), need))
     vlib.write_evidence(PROP, tier, seed, "model_checking", {
         "states": states, "transitions": states, "traces_validated_against_impl": len(rows),
         "samples": [{k: rows[i][k] for k in ("rpc", "scheme", "cache", "state", "case", "verifies", "panic", "changed")} for i in (0, len(rows) // 2, len(rows) - 1)],
@@ -69,7 +81,7 @@ def run(tier, seed):
                 "absent/present, 12 signature variants, hash and view classes, aggregate-QC shapes), %s, instantiated as real protobuf messages and handed to the real service "
                 "handlers of a running replica in three states (fresh, mid-run, after timeouts), per scheme / cache / timeout-rule configuration; panics recovered and located" % (
                     ncases, "stratified sample" if tier == "quick" else "all of them"),
-        "by_rpc": by, "grammar_shapes": ncases, "messages_that_verify": sum(1 for x in rows if x["verifies"]),
+        "by_rpc": by, "effect_by_rpc": effect, "grammar_shapes": ncases, "messages_that_verify": sum(1 for x in rows if x["verifies"]),
         "state_changes_observed": sum(1 for x in rows if x["changed"]), "panics": sum(1 for x in rows if x["panic"]), "checker_cmd": cmd,
     }, time.time() - t0, violations=len(v.violations),
         assumptions=["the sender id is supplied by the harness as the transport would (peer metadata)", "protobuf decoding below convert.go is trusted"])
